@@ -412,6 +412,11 @@ class Machine(Interp):
             hook = self.spec.opaque_hooks.get("call")
             if hook:
                 return hook(self, fn, args, kwargs)
+        from .values import STerm as _STerm
+        if isinstance(fn, _STerm):
+            hook = self.spec.opaque_hooks.get("sterm_call")
+            if hook:
+                return hook(self, fn, args, kwargs)
         raise Unsupported(f"call of {fn!r}")
 
     def call_method(self, obj, name, *args, **kwargs):
